@@ -1545,6 +1545,10 @@ class Emitter:
             x = x["inner"][0]
         if x.get("kind") == "MaterializeTemporaryExpr" and s.get("valueCategory") == "prvalue":
             is_temp = True
+        if not is_temp and s.get("kind") == "ConditionalOperator" and s.get("valueCategory") == "lvalue":
+            # &(c ? x : y) is C++ only: the address of the selected operand
+            c_, x_, y_ = s["inner"]
+            return "((%s) ? %s : %s)" % (self.expr(c_), self.addr_of(x_, pt), self.addr_of(y_, pt))
         if not is_temp and (a.get("valueCategory") == "lvalue" or s.get("valueCategory") == "lvalue"):
             e = self.expr(a)
             if e.startswith("(*") and e.endswith(")") and re.match(r"^\(\*\w+\)$", e):
